@@ -11,6 +11,12 @@ static uint64_t ir2c_next_input(void) {
   if (ir2c_inf && fscanf(ir2c_inf, "%llu", &v) == 1) return v;
   return 0;
 }
+unsigned __int128 ir2c_next_input128(void) {
+  char buf[64]; unsigned __int128 v = 0;
+  if (!ir2c_inf) { const char *p = getenv("IR2C_INPUTS"); if (p) ir2c_inf = fopen(p, "r"); }
+  if (ir2c_inf && fscanf(ir2c_inf, "%60s", buf) == 1) { for (char *c = buf; *c >= '0' && *c <= '9'; c++) v = v * 10 + (unsigned)(*c - '0'); }
+  return v;
+}
 uint8_t nondet_u8(void) { return (uint8_t)ir2c_next_input(); }
 uint16_t nondet_u16(void) { return (uint16_t)ir2c_next_input(); }
 uint32_t nondet_u32(void) { return (uint32_t)ir2c_next_input(); }
